@@ -53,6 +53,10 @@ def generate(R: Draw, tier: str) -> dict:
             grp = "V"
     lib, rs = schemas.get(sref)
     g = docgen(rs)
+    if R.bool(0.025):
+        # dense case: EVERY slice (with and without include_parents) of a small source document is pasted at
+        # EVERY position of a small target document
+        return {"schema": sref, "group": grp, "dense": True, "doc": g.doc(R, "tiny"), "src": g.doc(R, R.choice(["tiny", "small"]))}
     doc = g.doc(R, R.weighted([("small", 5), ("medium", 3)]))
     node = P.build(lib, doc)
     kind = R.choice(KINDS)
@@ -163,15 +167,52 @@ def frame_ok(rs, L1: list, B: list, src: list, A: list, deleting: bool) -> str |
     return "the content between the preserved surroundings is not an in-order subsequence of the slice (modulo fillers)"
 
 
-def check(case: dict, ctx: Ctx) -> None:
-    from prosemirror.transform import Transform, replace_step
+def check_dense(case: dict, ctx: Ctx) -> None:
+    lib, rs = schemas.get(case["schema"])
+    lt = rs.leaf_types
+    TS = P.tokens_of(case["src"]["c"], lt)
+    n = P.size_of(case["doc"]["c"], lt)
+    ns = len(TS)
+    if ns > 26 or n > 30:
+        ctx.label("dense:too-large-skipped")
+        return
+    sub_n = 0
+    seen = set()
+    for a in range(ns + 1):
+        for b in range(a + 1, ns + 1):
+            for inc in (False, True):
+                sl = S.ref_slice(TS, a, b, include_parents=inc)
+                if sl is None:
+                    continue
+                key = P.jkey(sl)
+                if key in seen:
+                    continue
+                seen.add(key)
+                for f in range(n + 1):
+                    for t in {f, min(n, f + 2)}:
+                        sub_n += 1
+                        check_one({**case, "op": {"op": "replace", "from": f, "to": t, "slice": sl}}, ctx, quiet=True)
+    ctx.label("dense")
+    ctx.evaluations += sub_n
 
+
+def check(case: dict, ctx: Ctx) -> None:
     if not schemas.in_domain(case["schema"]):
         ctx.label("skipped:schema-not-well-founded")
         return
+    if case.get("dense"):
+        check_dense(case, ctx)
+        return
+    check_one(case, ctx)
+
+
+def check_one(case: dict, ctx: Ctx, quiet: bool = False) -> None:
+    from prosemirror.transform import Transform, replace_step
+
     lib, rs = schemas.get(case["schema"])
     doc_p = case["doc"]
-    assert not V.node_problems(rs, doc_p)
+    if not quiet:
+        assert not V.node_problems(rs, doc_p)
     op = case["op"]
     k = op["op"]
     total = case["group"] == "V"
@@ -183,8 +224,9 @@ def check(case: dict, ctx: Ctx) -> None:
     doc = P.build(lib, doc_p)
     tr = Transform(doc)
     sk = case["schema"] if isinstance(case["schema"], str) else "random"
-    ctx.label("op:" + k)
-    ctx.label("group:" + case["group"])
+    if not quiet:
+        ctx.label("op:" + k)
+        ctx.label("group:" + case["group"])
 
     def run() -> None:
         if k == "replace_step":
